@@ -159,7 +159,7 @@ func c15RealConn(m *vk.M, w *c15World, kinds map[string]int64) {
 				parkedSamples++
 			}
 			g2, _, _, _ := w.etcd.counters()
-			if settled && g2 == gets && ready && parked && c15WatchersIdle(0) {
+			if g2 == gets && ready && parked && c15WatchersIdle(0) {
 				noReload = true
 				return true
 			}
@@ -176,7 +176,7 @@ func c15RealConn(m *vk.M, w *c15World, kinds map[string]int64) {
 			return
 		}
 		if noReload && w.etcd.watchCount() < nb+expected {
-			w.violate("C15:reconnect:no-reload:real-connection", "the gRPC connection went Ready -> TransientFailure -> Ready (state watcher settled on Ready) but no reload was started: no snapshot Get, all watch goroutines parked; %d changes made while down stay invisible", w.pending())
+			w.violate("C15:reconnect:no-reload:real-connection", "the gRPC connection went Ready -> TransientFailure -> Ready (state watcher settled on Ready) but no reload was started: no snapshot Get, all watch goroutines parked; %d changes made while down stay invisible (state watcher seen waiting while the connection reported the failure: %v)", w.pending(), settled)
 			return
 		}
 		m.Count("real_connection_losses_and_recoveries", 1)
